@@ -508,7 +508,7 @@ def run(ctx, replay=None):
     TO = 600 if quick else 3000
     exh = ['core_ann', 'core_app', 'crea_ref', 'crea_app', 'deep_ann'] if quick else \
         ['core_ref', 'core_ann', 'core_app', 'crea_ref', 'crea_ann', 'crea_app', 'deep_ann', 'deep_ref']
-    sims = [(n, (150, 250) if quick else (700, 300)) for n in (('sim_ref_d', 'sim_ann_d', 'sim_app_t', 'sim_ann_t') if quick else
+    sims = [(n, (150, 250) if quick else (350, 300)) for n in (('sim_ref_d', 'sim_ann_d', 'sim_app_t', 'sim_ann_t') if quick else
                                                               ('sim_ref_d', 'sim_ann_d', 'sim_app_d', 'sim_ref_t', 'sim_ann_t', 'sim_app_t'))]
     results = {}
     with ThreadPoolExecutor(5 if quick else 4) as ex:
@@ -533,10 +533,11 @@ def run(ctx, replay=None):
             cnt += 1
             traces.append(to_trace(p, n, cnt, sweep=(cnt % 7 == 0)))
         ctx.log('EVMFrames/%s: %s -> %d distinct programs' % (n, {k: v for k, v in r.summary().items() if k in ('generated', 'distinct', 'wall_s', 'ok')}, cnt))
-    if quick:
-        # quick tier: a seeded sample of each exhaustive set (the thorough tier runs them all; programs entered through the
-        # 1022-frame trampoline cost ~30 ms each), every simulated program
-        caps = {'core_ann': 800, 'core_app': 800, 'crea_ref': 600, 'crea_app': 800, 'deep_ann': 500}
+    if True:
+        # a seeded sample of the larger exhaustive sets (programs entered through the 1022-frame trampoline cost ~30 ms
+        # each on each binary); the thorough tier runs the direct-entry sets completely; every simulated program is run
+        caps = {'core_ann': 800, 'core_app': 800, 'crea_ref': 600, 'crea_app': 800, 'deep_ann': 500} if quick else \
+            {'deep_ann': 1500, 'deep_ref': 1500}
         by = {}
         for t in traces:
             by.setdefault(t['cfg']['gen'], []).append(t)
